@@ -12,7 +12,7 @@ import json
 import os
 import threading
 
-from .common import (BUILD, ROOT, Result, count_lines, driver_path, first_difference, harness_path, sh, standard_build)
+from .common import (BUILD, ENV, ROOT, Result, count_lines, driver_path, first_difference, harness_path, sh, standard_build)
 
 PROP = "C19"
 DRIVER = driver_path("c19")
@@ -41,7 +41,7 @@ def run(tier):
     for f in (cases, impl, model, orc, cor):
         if os.path.exists(f):
             os.remove(f)
-    env = dict(os.environ)
+    env = dict(ENV)
     env.update({"VERIF_SCRATCH": os.path.join(work, "scratch"), "VERIF_WORK": os.path.join(BUILD, "work"),
                 "VERIF_SEED": str(res.seed)})
     out = {}
@@ -135,7 +135,7 @@ def replay(path):
     r = json.load(open(path))
     args = r.get("replay_args")
     if args:
-        env = dict(os.environ)
+        env = dict(ENV)
         if "seed" in r:
             env["VERIF_SEED"] = str(r["seed"])
         rc, out, _ = sh([HARNESS, "replay"] + [str(a) for a in args], env=env)
